@@ -411,6 +411,20 @@ func runC06(ctx *h.Ctx) int {
 		} else {
 			clash = &spec.MovementItem{ID: prog.NewID(), Name: what, Steps: []*spec.ListElem{{ID: prog.NewID(), Name: "walk_up"}}}
 		}
+		if k.R.IntN(2) == 0 {
+			// the user item repeats the generated one's content word for word: still two definitions of one name
+			if ti, ok := clash.(*spec.TextItem); ok && pick < len(lm.Texts) {
+				f := lm.Texts[pick].First
+				ti.Val = &spec.TextVal{ID: prog.NewID(), Type: f.Type, Parts: append([]string{}, f.Parts...), Format: f.Format}
+				k.Count("clashes_with_identical_content", 1)
+			} else if mi, ok := clash.(*spec.MovementItem); ok && pick >= len(lm.Texts) {
+				mi.Steps = nil
+				for _, st := range lm.Moves[pick-len(lm.Texts)].Steps {
+					mi.Steps = append(mi.Steps, &spec.ListElem{ID: prog.NewID(), Name: st})
+				}
+				k.Count("clashes_with_identical_content", 1)
+			}
+		}
 		at := k.R.IntN(len(prog.Items) + 1)
 		items := append([]spec.Item{}, prog.Items[:at]...)
 		items = append(items, clash)
